@@ -19,11 +19,18 @@ EXPLANATION = (
     ' (R10) based-literal prefixes written by the formatter are tags of the parser leaf of that variant; (R11) no HTML entity or tag on the text path of a node emitter.'
     " (R8, empty nodes) a node whose list field is empty is written with text one of the parser's empty productions accepts; (R12) separators the emitters put between list elements are accepted by the list parser's separator language in that context (a tight comma where the parser needs `, ` or whitespace where it forbids it is reported)."
     " (R13) tight productions: an emitter writes white space between two fields only where a parser step between them (or the neighbouring field's own parser) can consume white space; and the emitter of a node all of whose parsers are white-space free (a token: number, complex literal, grammar identifier) writes no blank, neither literally nor through a helper emitter called with a constant argument."
+    " (R15) distinct variants of a node enum are never rendered by identical code (one or-pattern arm, or arm bodies equal up to binder names): identical rendering makes them indistinguishable in the formatted text."
 )
 OP_ENUMS = ["AddSubOp", "MulDivOp", "PowerOp", "VecOp", "ComparisonOp", "LogicOp", "TableOp", "SetOp", "OpAssignOp", "RangeOp"]
 
 
 def run(F, rep, tier):
+    _run(F, rep, tier)
+    from rules.c08_distinct import run_r15
+    run_r15(F, rep)
+
+
+def _run(F, rep, tier):
     rep.rule("C08-R1", "constructible variants have emitter arms")
     rep.rule("C08-R2", "emitters read every semantic field of their node")
     rep.rule("C08-R3", "operator literal <-> parser leaf agreement and injectivity")
